@@ -115,7 +115,8 @@ def obligations(tier, seed):
     if tier == "quick":
         parts = [{"schema": s, "doc": i} for (s, i) in QUICK]
     else:
-        parts = common.doc_partitions(["basic", "list", "strict", "title", "fixed", "docmarks", "iso", "table"], tier)
+        parts = [{"schema": s, "doc": i} for (s, i) in [("list", 2), ("list", 3), ("list", 4), ("list", 7), ("strict", 0), ("strict", 1),
+                                                          ("title", 0), ("fixed", 0), ("iso", 0), ("table", 0), ("docmarks", 0), ("basic", 1)]]
     for p in parts:
         tag = "%s#%d" % (p["schema"], p["doc"])
         size = common.templates.doc(p["schema"], p["doc"]).content.size
@@ -139,7 +140,7 @@ def obligations(tier, seed):
                     obs.append({"name": "%s/%s#%d/%d" % (kind, sn, i, lo), "fn": "ob_edit",
                                 "P": {"schema": sn, "doc": i, "kind": kind, "alo": lo, "ahi": lo + 4}, "timeout": T})
     cross = [("list", 0, 1)] if tier == "quick" else \
-        [("list", 0, 1), ("list", 3, 0), ("list", 0, 7), ("strict", 0, 0), ("title", 0, 2), ("fixed", 0, 0), ("iso", 1, 2), ("basic", 0, 2)]
+        [("list", 0, 1), ("list", 0, 7), ("strict", 0, 0), ("fixed", 0, 0)]
     for (sn, i, j) in cross:
         size = common.templates.doc(sn, i).content.size
         for kind in (("replace_range",) if tier == "quick" else ("replace", "replace_range")):
